@@ -100,13 +100,36 @@ def _case(draw, names=None, name=None):
     }
 
 
+# pool of catalogue entries whose out-of-place result shares memory with the
+# input (probed once per run with np.shares_memory, see zoo.get_view_pool);
+# the expression entry 'expr.viewoperand' draws its operands from it
+VIEW_POOL = None
+VIEW_POOL_SIZE = None
+
+
+def _view_pool():
+    global VIEW_POOL, VIEW_POOL_SIZE
+    if VIEW_POOL is None:
+        VIEW_POOL = list(zoo.get_view_pool())
+        VIEW_POOL_SIZE = len(VIEW_POOL)
+        ASSUMPTIONS.append(
+            'operators whose out-of-place result is a view of / identical '
+            'to their argument (probed with np.shares_memory over the '
+            'catalogue): {} entries {}; expression classes are built around '
+            'them (stratum expr-operand-returns-view)'.format(
+                VIEW_POOL_SIZE, VIEW_POOL))
+    return VIEW_POOL
+
+
 def strategy(tier):
+    _view_pool()
     return _case(names=_names(tier))
 
 
 def enumerate_cases(tier):
     """Fixed sweep: every catalogue entry with a few Hypothesis-drawn option
     sets (deterministic: explicit seed), so that no entry depends on luck."""
+    _view_pool()
     return zoo.sweep(lambda n: _case(name=n), _names(tier),
                      per_entry=5 if tier == 'quick' else 10)
 
@@ -315,6 +338,14 @@ def run_case(desc):
     if x not in dom:
         raise HarnessError('generated point not in domain of ' + name)
     xb = _bytes(x, dom)
+    # does the operand of a 'view operand' expression return a view here?
+    view_operand = False
+    V = getattr(op, '_verif_view_operand', None)
+    if V is not None and V.domain == dom:
+        try:
+            view_operand = zoo.result_shares_memory(V, x)
+        except Exception:  # noqa
+            view_operand = False
     cnt = Counter(op)
     strata = ['entry:' + name, 'cls:' + cls, 'family:' + ent.family]
     region = zoo.region(op, desc)
@@ -511,6 +542,8 @@ def run_case(desc):
         nontrivial = True
     if desc['x'].get('order', 'C') != 'C':
         strata.append('x-' + desc['x']['order'])
+    if view_operand:
+        strata.append('expr-operand-returns-view')
     return Outcome('ok', strata=strata, nontrivial=nontrivial,
                    notes={'implementation_calls_observed': cnt.n,
                           'inplace_evaluations': 0 if op.is_functional
@@ -523,7 +556,7 @@ NEVER_OK = {'func.MoreauEnvelope', 'func.InfimalConvolution',
             'func.FunctionalDefaultConvexConjugate', 'ufunc.modf',
             'LinDeformFixedDisp', 'LinDeformFixedTempl',
             'fprox.IndicatorNuclearNormUnitBall'}
-REQUIRED_STRATA = ['inplace', 'functional', 'x-array', 'x-list', 'x-F',
+REQUIRED_STRATA = ['inplace', 'functional', 'expr-operand-returns-view', 'x-array', 'x-list', 'x-F',
                    'x-strided', 'out-F', 'out-strided'] + \
     ['junk-' + k for k in JUNK_X] + ['badout-' + k for k in BAD_OUT] + \
     ['entry:' + n for n, e in zoo.ENTRIES.items()
